@@ -187,7 +187,7 @@ pub fn run(run: &mut Run) {
         }
         bounds.push(json!({"alphabet": name, "alphabet_size": cfg.alphabet.len(), "length": len, "flush_schedules_per_history": 1u32 << (len - 1),
             "seeds": cfg.seeds, "histories": st.words, "executions": runs}));
-        if run.elapsed() > if thorough { 3000.0 } else { 100.0 } {
+        if run.elapsed() > if thorough { 3000.0 } else { 600.0 } {
             run.cap_hit = Some(format!("wall clock after plan {} len {}", name, len));
             break;
         }
